@@ -392,6 +392,20 @@ class Analyzer:
             if len(args) > 1 and flat(args[1]) == TAINT:
                 self.sink(f, e.args[1], "SQL parameter", env)
             return NONE
+        if last in ("isclose", "allclose") and len(e.args) >= 2:
+            # |a - b| <= atol + rtol * |b|: with absolute epochs on both sides the tolerance scales with the date
+            a_, b_ = flat(args[0]), flat(args[1])
+            rtol = next((k.value for k in e.keywords if k.arg == "rtol"), e.args[2] if len(e.args) > 2 else None)
+            rtol_zero = isinstance(rtol, ast.Constant) and rtol.value == 0
+            if TAINT in (a_, b_):
+                self.sink(f, e, "tolerance comparison", env)
+            elif max(a_, b_) >= ABS and not rtol_zero:
+                self.flag(f, e, "C07.O1",
+                          "tolerance comparison `%s` of absolute epochs: the tolerance is atol + rtol x |epoch|, it grows with the date" % ast.unparse(e)[:80],
+                          "absolute epochs are compared exactly (==) or through their difference against a fixed tolerance (rtol = 0)",
+                          "%s|%s|relative-tolerance-on-epochs" % (f.module.relpath, f.qualname),
+                          "once rtol x epoch exceeds the time step, the neighbouring sample matches too: at 20-minute steps every lookup after 2008 lands one step early, before 2008 it does not")
+            return NONE
         if last == "timestamp" and isinstance(e.func, ast.Attribute) and not e.args:
             return ABS
         # spowtd functions: interprocedural
